@@ -35,6 +35,30 @@ class KModel(PlainModel):
                 todo.extend(self.module.classes_by_name.get(b, []))
         return None
 
+    def attr_load(self, obj, attr, st, node):
+        # an opt-in switch: a class-level constant (`_pathlike = False`) that __init__ overrides only when the new option is given.  Existing callers get the
+        # class default, and new optional features are judged at their defaults
+        if obj == SELF and self.cls is not None:
+            todo, seen = [self.cls], set()
+            while todo:
+                ci = todo.pop(0)
+                if ci is None or ci.qual in seen:
+                    continue
+                seen.add(ci.qual)
+                v = ci.attrs.get(attr)
+                if isinstance(v, ast.Constant) and isinstance(v.value, (bool, type(None))):
+                    init = self.resolve_method('__init__')
+                    uncond = False
+                    if init is not None:
+                        for st_ in init.node.body:
+                            if isinstance(st_, ast.Assign) and any(isinstance(t, ast.Attribute) and t.attr == attr for t in st_.targets):
+                                uncond = True
+                    if not uncond:
+                        return [R(st, C(v.value))]
+                for b in ci.base_names():
+                    todo.extend(self.module.classes_by_name.get(b, []))
+        return PlainModel.attr_load(self, obj, attr, st, node) if hasattr(PlainModel, 'attr_load') else None
+
     def call(self, f, args, kws, st, node):
         if f[0] == 'attr' and f[1] == SELF and self.engine is not None:
             fi = self.resolve_method(f[2])
@@ -467,7 +491,9 @@ def rule_K_HASH(ctx, repo):
                 continue
             k += 1
             v = o.val
-            ok = not has_sub(v) and (contains_term(v, lambda t: t == obj) or contains_term(v, lambda t: t[0] == 'call' and libname(t[1]) == 'eval'))
+            sp0 = spine(v, lambda t: t == obj)
+            sub_on_data = has_sub(v) if sp0 is None else any(x[0] in ('sub', 'proj') for x in sp0)
+            ok = not sub_on_data and (contains_term(v, lambda t: t == obj) or contains_term(v, lambda t: t[0] == 'call' and libname(t[1]) == 'eval'))
             if ok and contains_term(v, lambda t: t == obj):
                 # every step between the object and the returned encoding keeps all information (str / repr / encode / dumps ...): a normalisation, case
                 # fold, strip or substitution on the way maps distinct arguments to one key
@@ -478,6 +504,12 @@ def rule_K_HASH(ctx, repo):
                         nm_ = f_[2] if f_[0] == 'attr' else (libname(f_) if f_[0] == 'lib' else None)
                         if nm_ in ('repr', 'dumps', 'str', 'ascii'):
                             return True
+                        if f_[0] == 'sub' and f_[1][0] in ('global', 'lib'):
+                            # a dispatch table of casts: _stringlike[encoding](object) with _stringlike = {'str': str, 'repr': repr, ...}
+                            tname = f_[1][1].split('.')[-1] if isinstance(f_[1][1], str) else None
+                            tv = m.consts.get(tname) if tname else None
+                            if isinstance(tv, ast.Dict) and tv.values and all(isinstance(e_, ast.Name) and e_.id in ('str', 'repr', 'ascii', 'bytes', 'bytearray') for e_ in tv.values):
+                                return True
                     return lossless_step(x)
                 lossy = [x for x in (sp or []) if not enc_step(x)]
                 if lossy:
